@@ -28,6 +28,39 @@ theorem subset_spec (vals shuffled : List Nat) (hp : shuffled.Perm vals) (hn : v
     · exact hnd
     · exact hnd.sublist (List.take_sublist _ _)
 
+theorem mem_insertSortedNat (x y : Nat) (l : List Nat) : y ∈ insertSortedNat x l ↔ y = x ∨ y ∈ l := by
+  induction l with
+  | nil => simp [insertSortedNat]
+  | cons a t ih =>
+    unfold insertSortedNat
+    by_cases h1 : x < a
+    · simp [h1]
+    · by_cases h2 : x = a
+      · subst h2
+        simp only [Nat.lt_irrefl, if_false, if_true, List.mem_cons]
+        constructor
+        · intro h; exact Or.inr h
+        · rintro (h | h)
+          · exact Or.inl h
+          · exact h
+      · simp only [h1, if_false, h2, List.mem_cons, ih]
+        constructor
+        · rintro (h | h | h)
+          · exact Or.inr (Or.inl h)
+          · exact Or.inl h
+          · exact Or.inr (Or.inr h)
+        · rintro (h | h | h)
+          · exact Or.inr (Or.inl h)
+          · exact Or.inl h
+          · exact Or.inr (Or.inr h)
+
+theorem mem_canonSet (l : List Nat) (y : Nat) : y ∈ canonSet l ↔ y ∈ l := by
+  induction l with
+  | nil => simp [canonSet]
+  | cons a t ih =>
+    unfold canonSet at ih ⊢
+    simp only [List.foldr_cons, mem_insertSortedNat, ih, List.mem_cons]
+
 /-! kube -/
 
 theorem mem_foldl_insertNew (ips l : List Nat) (x : Nat) :
